@@ -297,7 +297,7 @@ func (w *Worker) loop(fn *ssa.Function) {
 		e.busy--
 		e.cond.Broadcast()
 		e.mu.Unlock()
-		if e.Cfg.Verbose && np%500 == 0 {
+		if e.Cfg.Verbose && np%5000 == 0 {
 			fmt.Fprintf(os.Stderr, "[symgo] %s: %d paths, %d queued, %.1fs\n", fn.Name(), np, len(e.work), time.Since(e.started).Seconds())
 		}
 	}
